@@ -214,6 +214,24 @@ Definition box_slot (s : space) (pk : id * nat) : space :=
       end
   end.
 
+(* lib.rs:639,665-689 (fix c22ef06): `batch_names` records the type name under
+   which each definition of THIS call was inserted; the first definition whose
+   name is already recorded makes the call return Err(InvalidSchema) -- AFTER
+   convert_ref_type inserted it.  The name is the one carried by the inserted
+   entry (InsNamed); replacement / native entries (InsRaw) have none.
+   `batch_dup defs` = index of that definition. *)
+Definition ins_name (i : ins) : option name := match i with InsNamed n _ => Some n | InsRaw _ => None end.
+Fixpoint batch_dup_from (seen : list name) (defs : list defn) (k : nat) : option nat :=
+  match defs with
+  | [] => None
+  | d :: r =>
+      match ins_name (d_ins d) with
+      | Some n => if existsb (N.eqb n) seen then Some k else batch_dup_from (n :: seen) r (S k)
+      | None => batch_dup_from seen r (S k)
+      end
+  end.
+Definition batch_dup (defs : list defn) : option nat := batch_dup_from [] defs O.
+
 (* One API call.  break_cycles is abstracted to the list of snips it performs
    (parent id, slot index); which snips it chooses is Cycles.v's business (C07). *)
 Inductive call :=
@@ -225,33 +243,50 @@ Inductive call :=
        (lib.rs:665 `?`) after that conversion had issued the assign_type calls
        `partial`: ids stay reserved, no break_cycles, no finalize *)
 
+(* a batch that returns Err after `done` definitions were converted and inserted *)
+Definition refs_err (s : space) (defs : list defn) (done : nat) (partial : list tentry) : space * id :=
+  let base := next_id s in
+  let s1 := reserve s defs in
+  (fst (run_script (convert_defs s1 base (firstn done defs)) [] partial), 0).
+
+Definition refs_ok (s : space) (defs : list defn) (boxes : list (id * nat)) (ret : option refkey) : space * id :=
+  let base := next_id s in
+  let s1 := reserve s defs in
+  let s2 := convert_defs s1 base defs in
+  let s3 := fold_left box_slot boxes s2 in
+  let s4 := finalize_range base s3 in
+  (s4, match ret with
+       | Some r => match lookup N.eqb r (ref_to_id s4) with Some i => i | None => 0 end
+       | None => 0
+       end).
+
 Definition run_call (s : space) (c : call) : space * id :=
   match c with
   | AddType scr => add_type s scr
   | AddRefs defs boxes ret =>
-      let base := next_id s in
-      let s1 := reserve s defs in
-      let s2 := convert_defs s1 base defs in
-      let s3 := fold_left box_slot boxes s2 in
-      let s4 := finalize_range base s3 in
-      (s4, match ret with
-           | Some r => match lookup N.eqb r (ref_to_id s4) with Some i => i | None => 0 end
-           | None => 0
-           end)
-  | AddRefsErr defs done partial =>
-      let base := next_id s in
-      let s1 := reserve s defs in
-      (fst (run_script (convert_defs s1 base (firstn done defs)) [] partial), 0)
+      match batch_dup defs with
+      | Some i => refs_err s defs (S i) []      (* rejected: definitions 0..i are inserted *)
+      | None => refs_ok s defs boxes ret
+      end
+  | AddRefsErr defs done partial => refs_err s defs done partial
+  end.
+
+(* does the call return Err? *)
+Definition call_err (c : call) : bool :=
+  match c with
+  | AddType _ => false
+  | AddRefs defs _ _ => match batch_dup defs with Some _ => true | None => false end
+  | AddRefsErr _ _ _ => true
   end.
 
 Definition run_history (s : space) (h : list call) : space :=
   fold_left (fun s c => fst (run_call s c)) h s.
 
 (* states and results after every call *)
-Fixpoint run_trace (s : space) (h : list call) : list (space * id) :=
+Fixpoint run_trace (s : space) (h : list call) : list (space * id * bool) :=
   match h with
   | [] => []
-  | c :: r => let sr := run_call s c in sr :: run_trace (fst sr) r
+  | c :: r => let sr := run_call s c in (sr, call_err c) :: run_trace (fst sr) r
   end.
 
 (* ---------- observations ---------- *)
@@ -289,7 +324,7 @@ Definition changed {V} (veqb : V -> V -> bool) (prev cur : list (N * V)) : list 
                     | Some v => negb (veqb v (snd kv))
                     | None => true
                     end) cur.
-Definition show_delta (prev cur : space) (ret : id) : string :=
+Definition show_delta (prev cur : space) (ret : id) (err : bool) : string :=
   "next=" ++ sN (next_id cur)
   ++ "|ent=" ++ sList show_entry (changed entry_eqb (entries prev) (entries cur))
   ++ "|t2i=" ++ sList sN (filter (fun i => negb (existsb (N.eqb i) (map snd (type_to_id prev))))
@@ -298,11 +333,11 @@ Definition show_delta (prev cur : space) (ret : id) : string :=
   ++ "|refs=" ++ sList show_pair (changed N.eqb (ref_to_id prev) (ref_to_id cur))
   ++ "|sizes=" ++ sN (N.of_nat (List.length (entries cur))) ++ "." ++ sN (N.of_nat (List.length (type_to_id cur)))
   ++ "." ++ sN (N.of_nat (List.length (name_to_id cur))) ++ "." ++ sN (N.of_nat (List.length (ref_to_id cur)))
-  ++ "|ret=" ++ sN ret.
-Fixpoint show_deltas (prev : space) (tr : list (space * id)) : list string :=
+  ++ "|ret=" ++ sN ret ++ "|err=" ++ (if err then "1" else "0").
+Fixpoint show_deltas (prev : space) (tr : list (space * id * bool)) : list string :=
   match tr with
   | [] => []
-  | (s, r) :: t => show_delta prev s r :: show_deltas s t
+  | (s, r, e) :: t => show_delta prev s r e :: show_deltas s t
   end.
 Definition show_trace (h : list call) : string :=
   String.concat "#" (show_deltas empty (run_trace empty h)).
